@@ -1,5 +1,4 @@
 SPECIFICATION FairSpec
-CONSTANT Defs <- MCDefs
 CONSTANT ZeroLenIsError = TRUE
 CHECK_DEADLOCK FALSE
 PROPERTY Terminates
